@@ -61,6 +61,7 @@ def c16(ctx):
     rng = random.Random(ctx.seed * 37 + 6)
     quick = ctx.tier == "quick"
     bad = []
+    like_obs = []   # (tuple tree, real has_like_terms) for the model comparison
     n_eval = 0
     nontrivial = 0
     coefs = [None, F(1), F(2), F(4), F(12), F(-1), F(-3), F(1, 2), F(5, 2), F(-7, 4), F(0), F(100)]
@@ -151,6 +152,10 @@ def c16(ctx):
             r = rng.random()
             if r < 0.2:
                 items.append(fmt_num(rng.choice([F(1), F(7), F(12), F(3, 2)])))
+            elif r < 0.4:
+                # addends get_term cannot analyse (non-constant exponent, two powers, product over a sum, ...)
+                items.append(rng.choice(["2^y", "x^2 * y^3", "3(z + 1)", "x^y", "(a + b) * 2", "2 / x", "sgn(x)", "-(x + 1)",
+                                         "x * x", "x * y", "2x * y^2", "4!", "-x", "-x^2"]))
             else:
                 items.append(term_text(rng.choice([None, F(2), F(5), F(9), F(1, 2)]), rng.choice(pool_v[: rng.choice([1, 2, 3])]),
                                        rng.choice([None, None, F(2), F(3)])))
@@ -164,6 +169,11 @@ def c16(ctx):
                     continue
                 r = call(UT.has_like_terms, node)
                 answers.setdefault(str(r), []).append(text)
+                if r[0] == "ok":
+                    try:
+                        like_obs.append((core.to_tuple(node), bool(r[1]), text))
+                    except core.Unmodelled:
+                        pass
         nontrivial += 1
         if len(answers) > 1:
             bad.append({"clause": "has_like_terms order/grouping", "terms": items,
@@ -182,6 +192,9 @@ def c16(ctx):
             r = call(f, core.parse_fresh(text))
             if r[0] != "ok":
                 bad.append({"clause": "predicate raised", "function": name, "text": text, "exception": r[1], "message": r[2]})
+        hl = call(UT.has_like_terms, core.parse_fresh(text))
+        if hl[0] == "ok":
+            like_obs.append((reach, bool(hl[1]), text))
         terms = call(UT.get_terms, node)
         if terms[0] == "ok":
             ts = terms[1][:5]
@@ -195,6 +208,21 @@ def c16(ctx):
                     if r1 != r2:
                         bad.append({"clause": "terms_are_like symmetric", "text": text, "a": str(a), "b": str(b),
                                     "ab": str(r1), "ba": str(r2)})
+    # products of variables with repeated factors: symmetry needs multiset comparison
+    prods = ["x * x", "x * y", "y * x", "x * x * y", "x * y * y", "2x * x", "x * 2y", "x^2 * y", "y * x^2", "x", "y", "2x",
+             "3", "x^2", "2x^2", "x * z", "(x * x) * (y * y)", "x * (x * y)"]
+    for a_txt in prods:
+        for b_txt in prods:
+            n_eval += 1
+            node = core.parse_fresh(a_txt + " + " + b_txt)
+            ts = UT.get_terms(node)
+            if len(ts) != 2:
+                continue
+            r1, r2 = call(UT.terms_are_like, ts[0], ts[1]), call(UT.terms_are_like, ts[1], ts[0])
+            if r1 != r2:
+                bad.append({"clause": "terms_are_like symmetric", "text": a_txt + " + " + b_txt, "ab": str(r1), "ba": str(r2)})
+            if a_txt == b_txt and r1 != ("ok", True):
+                bad.append({"clause": "terms_are_like reflexive", "text": a_txt, "got": str(r1)})
     # dedupe by (clause, function, exception) to keep reports small but complete in kinds
     seen, uniq = set(), []
     for b in bad:
@@ -209,6 +237,7 @@ def c16(ctx):
     for b in bad:
         k = b.get("clause") + (":" + b.get("function", "") if b.get("function") else "")
         ctx.notes["problem_kinds"][k] = ctx.notes["problem_kinds"].get(k, 0) + 1
+    ctx.like_obs = like_obs
     ctx.sample({"term text": "4x^2", "triple": "(4, x, 2)"})
     ctx.sample({"sum": "2x + 7 + y^2 + 5x (all permutations and groupings)"})
     return uniq
@@ -232,7 +261,15 @@ def run(ctx):
     for f in open_f:
         if f["id"] in hits:
             ctx.known_finding(f"{f['id']}: {f['what']} (reproduced {hits[f['id']]} times)")
-    finish(ctx, [("terms", unlisted)], [], "term analysis is order-invariant and inverse to term construction")
+    # model correspondence: has_like_terms
+    drv = core.Driver()
+    obs = ctx.like_obs
+    ans = drv.ask([f"like {core.tuple_to_wire(t)}" for t, _, _ in obs])
+    diffs = [{"text": txt, "impl": r, "model": a} for (t, r, txt), a in zip(obs, ans) if (a == "true") != r]
+    ctx.coverage["traces_validated_against_impl"] += len(obs)
+    ctx.notes["has_like_terms_compared_with_model"] = len(obs)
+    finish(ctx, [("terms", unlisted)], [("has_like_terms", diffs)],
+           "term analysis is order-invariant and inverse to term construction")
 
 
 CHECKS = {"C16": run}
